@@ -75,7 +75,11 @@ type smCmd struct {
 	A  []int  `json:"a,omitempty"`
 	T  int    `json:"t"`
 	P  int    `json:"p"` // placement of the timestamp inside the tick
+	G  int    `json:"g,omitempty"` // consecutive commands with the same non-zero g form ONE raft entry batch
 }
+
+// sub-key id of a field/member name longer than the store accepts (OverLong in ZKV.tla)
+const smOverLong = 9
 
 var smReadCmds = map[string]bool{}
 var smExpirySetting = map[string]bool{"setx": true, "setex": true, "expire": true, "hexpire": true, "lexpire": true, "sexpire": true, "zexpire": true}
@@ -89,6 +93,10 @@ func init() {
 }
 
 func smTypeOf(c string) byte {
+	switch c {
+	case "rpush", "rpush2", "rpop":
+		return 'l'
+	}
 	switch c[0] {
 	case 'h':
 		return 'h'
@@ -154,6 +162,9 @@ type smStats struct {
 
 func (d *smDrv) key(k int) []byte { return []byte(d.pool.keys[k-1]) }
 func (d *smDrv) sub(s int) []byte {
+	if s == smOverLong {
+		return []byte(strings.Repeat("L", 10241)) // longer than common.MaxSubKeyLen
+	}
 	if s < 1 || s > len(d.pool.subs) {
 		return []byte(fmt.Sprintf("zz-unknown-%d", s))
 	}
@@ -577,24 +588,11 @@ func (d *smDrv) read(c *smCmd) (r []int) {
 		}
 		return d.rBulk(v) // RESP nil and "" are not distinguished for GETRANGE
 	case "ttl", "httl", "lttl", "sttl", "zttl":
-		var n int64
-		var err error
-		switch c.C {
-		case "ttl":
-			n, err = st.KVTtl(k)
-		case "httl":
-			n, err = st.HashTtl(k)
-		case "lttl":
-			n, err = st.ListTtl(k)
-		case "sttl":
-			n, err = st.SetTtl(k)
-		case "zttl":
-			n, err = st.ZSetTtl(k)
-		}
-		if e(err) {
+		n := d.ttlOf(map[string]byte{"ttl": 'k', "httl": 'h', "lttl": 'l', "sttl": 's', "zttl": 'z'}[c.C], k)
+		if n == -5 {
 			return rErr
 		}
-		return rInt(d.normTTL(n))
+		return rInt(int64(n))
 	case "hget":
 		v, err := st.HGet(k, d.sub(a[0]))
 		if e(err) {
@@ -811,19 +809,34 @@ func b2i(b bool) int64 {
 	return 0
 }
 
-// TTL in ticks; every negative answer (no key / no expiry) is -1
-func (d *smDrv) normTTL(n int64) int64 {
-	if n < 0 {
-		return -1
-	}
-	// remaining real seconds -> remaining whole ticks as the model counts them:
-	// expiry second E = baseSec + e*H, now second N: ticks = e - floor((N-baseSec)/H)
-	now := time.Now().Unix()
-	e := float64(now+n-d.baseSec) / float64(d.hscale)
-	if e != math.Trunc(e) {
+// TTL in ticks; every negative answer (no key / no expiry) is -1.  The call reads the wall
+// clock itself, so the second it used lies between the seconds sampled around it: the expiry
+// second is (that second + answer) and must lie on the tick grid.
+func (d *smDrv) ttlTicks(f func() (int64, error)) int64 {
+	for try := 0; try < 6; try++ {
+		t0 := time.Now().Unix()
+		n, err := f()
+		t1 := time.Now().Unix()
+		if err != nil {
+			return -5
+		}
+		if n < 0 {
+			return -1
+		}
+		if d.hscale == 1 {
+			if t0 != t1 {
+				continue
+			}
+			return n
+		}
+		for c := t0; c <= t1; c++ {
+			if e := c + n - d.baseSec; e%d.hscale == 0 {
+				return e/d.hscale - int64(math.Floor(float64(c-d.baseSec)/float64(d.hscale)))
+			}
+		}
 		return 900000 + n%1000 // an expiry instant off the tick grid
 	}
-	return int64(e) - int64(d.nowTick())
+	return -6
 }
 
 // ---------------------------------------------------------------- observations
@@ -845,24 +858,19 @@ func (d *smDrv) atTick(f func(now int)) {
 }
 
 func (d *smDrv) ttlOf(ty byte, k []byte) int {
-	var n int64
-	var err error
-	switch ty {
-	case 'k':
-		n, err = d.st.KVTtl(k)
-	case 'h':
-		n, err = d.st.HashTtl(k)
-	case 'l':
-		n, err = d.st.ListTtl(k)
-	case 's':
-		n, err = d.st.SetTtl(k)
-	case 'z':
-		n, err = d.st.ZSetTtl(k)
-	}
-	if err != nil {
-		return -5
-	}
-	return int(d.normTTL(n))
+	return int(d.ttlTicks(func() (int64, error) {
+		switch ty {
+		case 'k':
+			return d.st.KVTtl(k)
+		case 'h':
+			return d.st.HashTtl(k)
+		case 'l':
+			return d.st.ListTtl(k)
+		case 's':
+			return d.st.SetTtl(k)
+		}
+		return d.st.ZSetTtl(k)
+	}))
 }
 
 func (d *smDrv) observe(ty byte, kid int) {
@@ -1120,7 +1128,7 @@ func (d *smDrv) run(group []*smCmd, rest []*smCmd) {
 			if len(r) == 1 && r[0] == 4 {
 				d.st8.Errors++
 			}
-			d.emit(trace.M{"ev": "cmd", "c": g.C, "k": g.K, "a": nzi(g.A), "t": g.T, "now": now, "p": g.P, "r": r, "ns": tss[i] - d.tickSec(g.T)*1e9})
+			d.emit(trace.M{"ev": "cmd", "c": g.C, "k": g.K, "a": nzi(g.A), "t": g.T, "now": now, "p": g.P, "r": r, "ns": tss[i] - d.tickSec(g.T)*1e9, "g": g.G})
 		}
 		d.st8.Cmds++
 		d.st8.Writes++
@@ -1143,6 +1151,10 @@ func (d *smDrv) run(group []*smCmd, rest []*smCmd) {
 		kid, _ := strconv.Atoi(k[1:])
 		d.observe(k[0], kid)
 	}
+}
+
+func smFailingBatchable(c *smCmd) bool {
+	return (c.C == "setex" && c.A[0] <= 0) || (c.C == "hmset" && (c.A[0] == smOverLong || c.A[2] == smOverLong))
 }
 
 func smHexs(ss []string) []string {
@@ -1241,9 +1253,317 @@ func (d *smDrv) compact(rest []*smCmd) {
 	d.observeAll()
 }
 
+
+// ---------------------------------------------------------------- big collections (spec/ZBigTrace.tla)
+
+func bigMember(i int) []byte { return []byte(fmt.Sprintf("m%05d", i)) }
+func bigIndex(b []byte) int {
+	s := string(b)
+	if strings.HasPrefix(s, "m") {
+		s = s[1:]
+	}
+	n, err := strconv.Atoi(s)
+	if err != nil {
+		return -9
+	}
+	return n
+}
+
+// one command through the apply path with a fresh unique timestamp in tick t
+func (d *smDrv) bigApply(t int, args ...[]byte) interface{} {
+	c := &smCmd{C: "big", T: t, P: 0}
+	return d.applyGroup([]smReq{{args, d.ts(c)}})[0]
+}
+
+func bigInt(v interface{}) int {
+	switch x := v.(type) {
+	case int64:
+		return int(x)
+	case int:
+		return x
+	case nil:
+		return -1
+	case string:
+		if x == "OK" {
+			return 0
+		}
+	case []byte:
+		if x == nil {
+			return -1
+		}
+		return bigIndex(x)
+	case error:
+		return -4
+	case smPanic:
+		return -7
+	}
+	return -3
+}
+
+func (d *smDrv) bigFill(ty byte, k []byte, from, to int) {
+	const chunk = 400
+	for a := from; a <= to; a += chunk {
+		b := a + chunk - 1
+		if b > to {
+			b = to
+		}
+		var args [][]byte
+		switch ty {
+		case 'l':
+			args = [][]byte{[]byte("rpush"), k}
+			for i := a; i <= b; i++ {
+				args = append(args, []byte(strconv.Itoa(i)))
+			}
+		case 's':
+			args = [][]byte{[]byte("sadd"), k}
+			for i := a; i <= b; i++ {
+				args = append(args, bigMember(i))
+			}
+		case 'z':
+			args = [][]byte{[]byte("zadd"), k}
+			for i := a; i <= b; i++ {
+				args = append(args, []byte(strconv.Itoa(i)), bigMember(i))
+			}
+		case 'h':
+			args = [][]byte{[]byte("hmset"), k}
+			for i := a; i <= b; i++ {
+				args = append(args, bigMember(i), []byte(strconv.Itoa(i)))
+			}
+		}
+		r := bigInt(d.bigApply(0, args...))
+		if ty == 'h' && r == -1 {
+			r = -1
+		}
+		d.emit(trace.M{"ev": "bfill", "ty": string([]byte{ty}), "k": 1, "from": a, "to": b, "r": r})
+		d.st8.Cmds++
+		d.st8.Writes++
+	}
+}
+
+func (d *smDrv) bigOp(ty byte, k []byte, op string, a []int, args ...[]byte) {
+	r := bigInt(d.bigApply(1, args...))
+	if op == "ltrim" && r == -1 {
+		r = 0 // the handler answers nil, the leader-side wrapper makes it OK
+	}
+	d.emit(trace.M{"ev": "bop", "ty": string([]byte{ty}), "k": 1, "op": op, "a": nzi(a), "r": r})
+	d.st8.Cmds++
+	d.st8.Writes++
+	d.st8.PerCmd["big-"+op]++
+}
+
+// counts-only observation of a (possibly huge) collection
+func (d *smDrv) bigObs(ty byte, k []byte, n0 int) {
+	st := d.st
+	cnts := []int{}
+	var n, ex int64
+	first, last := -1, -1
+	pt := seqs{}
+	probe := []int{0, 1, 50, 99, 100, 101, 5099, 5100, 5101, n0 - 1, n0, n0 + 1}
+	const page = 1000
+	switch ty {
+	case 'l':
+		n, _ = st.LLen(k)
+		ex, _ = st.LKeyExists(k)
+		total := 0
+		for off := int64(0); off < n+page; off += page {
+			vs, err := st.LRange(k, off, off+page-1)
+			if err != nil {
+				total = -4
+				break
+			}
+			total += len(vs)
+		}
+		cnts = append(cnts, total)
+		if n <= 4000 {
+			vs, _ := st.LRange(k, 0, -1)
+			cnts = append(cnts, len(vs))
+		}
+		if v, _ := st.LIndex(k, 0); v != nil {
+			first = bigIndex(v)
+		}
+		if v, _ := st.LIndex(k, -1); v != nil {
+			last = bigIndex(v)
+		}
+		// point lookups by position: element number = first + position
+		for _, p := range probe {
+			if first >= 0 && p >= first {
+				v, _ := st.LIndex(k, int64(p-first))
+				f := 0
+				if v != nil && bigIndex(v) == p {
+					f = 1
+				}
+				pt = append(pt, []int{p, f})
+			}
+		}
+	case 'h':
+		n, _ = st.HLen(k)
+		ex, _ = st.HKeyExists(k)
+		if n <= 4000 {
+			_, all, _ := st.HGetAll(k)
+			_, ks, _ := st.HKeys(k)
+			_, vs, _ := st.HValues(k)
+			cnts = append(cnts, len(all), len(ks), len(vs))
+			if len(ks) > 0 {
+				first, last = bigIndex(ks[0].Rec.Key), bigIndex(ks[len(ks)-1].Rec.Key)
+			}
+		} else {
+			first, last = -2, -2
+		}
+		for _, p := range probe {
+			v, _ := st.HGet(k, bigMember(p))
+			pt = append(pt, []int{p, int(b2i(v != nil))})
+		}
+	case 's':
+		n, _ = st.SCard(k)
+		ex, _ = st.SKeyExists(k)
+		if n <= 4000 {
+			ms, _ := st.SMembers(k)
+			cnts = append(cnts, len(ms))
+			if len(ms) > 0 {
+				first, last = bigIndex(ms[0]), bigIndex(ms[len(ms)-1])
+			}
+		} else {
+			first, last = -2, -2
+		}
+		for _, p := range probe {
+			x, _ := st.SIsMember(k, bigMember(p))
+			pt = append(pt, []int{p, int(x)})
+		}
+	case 'z':
+		n, _ = st.ZCard(k)
+		ex, _ = st.ZKeyExists(k)
+		total := 0
+		for off := 0; int64(off) < n+page; off += page {
+			ps, err := st.ZRangeGeneric(k, off, off+page-1, false)
+			if err != nil {
+				total = -4
+				break
+			}
+			total += len(ps)
+		}
+		cnts = append(cnts, total)
+		c1, _ := st.ZCount(k, common.MinScore, common.MaxScore)
+		c2, _ := st.ZLexCount(k, nil, nil, common.RangeClose)
+		cnts = append(cnts, int(c1), int(c2))
+		if n <= 4000 {
+			a, _ := st.ZRangeGeneric(k, 0, -1, false)
+			b, _ := st.ZRangeByScoreGeneric(k, common.MinScore, common.MaxScore, 0, -1, false)
+			c, _ := st.ZRangeByLex(k, nil, nil, common.RangeClose, 0, -1)
+			cnts = append(cnts, len(a), len(b), len(c))
+		}
+		if ps, _ := st.ZRangeGeneric(k, 0, 0, false); len(ps) == 1 {
+			first = bigIndex(ps[0].Member)
+		}
+		if ps, _ := st.ZRangeGeneric(k, -1, -1, false); len(ps) == 1 {
+			last = bigIndex(ps[0].Member)
+		}
+		for _, p := range probe {
+			_, err := st.ZScore(k, bigMember(p))
+			pt = append(pt, []int{p, int(b2i(err == nil))})
+		}
+	}
+	d.emit(trace.M{"ev": "bobs", "ty": string([]byte{ty}), "k": 1, "n": n, "cnts": cnts, "ex": ex, "first": first, "last": last, "pt": pt})
+	d.st8.Obs++
+}
+
+// the scenarios: every one crosses the 5000-element thresholds in a different command
+func (d *smDrv) bigRun(n int) {
+	k := d.key(1)
+	it := func(x int) []byte { return []byte(strconv.Itoa(x)) }
+	b := func(x string) []byte { return []byte(x) }
+	seg := func(ty byte, f func()) {
+		if _, err := d.st.VerifDBWipe(); err != nil {
+			panic(err)
+		}
+		d.usedNs = map[int64]bool{}
+		d.emit(trace.M{"ev": "reset"})
+		d.st8.Segments++
+		func() {
+			defer func() {
+				if e := recover(); e != nil {
+					d.emit(trace.M{"ev": "panic", "msg": fmt.Sprint(e)})
+					d.st8.Panics++
+				}
+			}()
+			d.bigFill(ty, k, 0, n-1)
+			d.bigObs(ty, k, n)
+			f()
+		}()
+	}
+	// lists
+	seg('l', func() {
+		d.bigOp('l', k, "ltrim", []int{0, 99}, b("ltrim"), k, it(0), it(99)) // cuts > 5000 off the tail
+		d.bigObs('l', k, n)
+		d.bigFill('l', k, 100, 109)
+		d.bigObs('l', k, n)
+		d.bigOp('l', k, "rpop", nil, b("rpop"), k)
+		d.bigOp('l', k, "lpop", nil, b("lpop"), k)
+		d.bigObs('l', k, n)
+	})
+	seg('l', func() {
+		d.bigOp('l', k, "ltrim", []int{n - 100, -1}, b("ltrim"), k, it(n-100), it(-1)) // cuts > 5000 off the head
+		d.bigObs('l', k, n)
+		d.bigOp('l', k, "lpop", nil, b("lpop"), k)
+		d.bigObs('l', k, n)
+	})
+	seg('l', func() {
+		d.bigOp('l', k, "ltrim", []int{50, n - 51}, b("ltrim"), k, it(50), it(n-51)) // small cuts on both sides
+		d.bigObs('l', k, n)
+		d.bigOp('l', k, "ltrim", []int{-n, 4999}, b("ltrim"), k, it(-n), it(4999))
+		d.bigObs('l', k, n)
+	})
+	seg('l', func() {
+		d.bigOp('l', k, "clear", nil, b("lclear"), k)
+		d.bigObs('l', k, n)
+		d.bigFill('l', k, 0, 9)
+		d.bigObs('l', k, n)
+		d.bigOp('l', k, "clear", nil, b("lclear"), k)
+		d.bigOp('l', k, "clear", nil, b("lclear"), k)
+		d.bigObs('l', k, n)
+	})
+	// hash / set / zset clears and re-creation
+	for _, ty := range []byte("hsz") {
+		ty := ty
+		seg(ty, func() {
+			d.bigOp(ty, k, "clear", nil, b(string([]byte{ty})+"clear"), k)
+			d.bigObs(ty, k, n)
+			d.bigFill(ty, k, 0, 9)
+			d.bigObs(ty, k, n)
+		})
+	}
+	// zset range removals
+	seg('z', func() {
+		// at most MAX_BATCH_NUM (5000) elements may be removed by rank in one command
+		d.bigOp('z', k, "zremrank", []int{0, 4999}, b("zremrangebyrank"), k, it(0), it(4999))
+		d.bigObs('z', k, n)
+		d.bigOp('z', k, "zremrank", []int{-150, -1}, b("zremrangebyrank"), k, it(-150), it(-1))
+		d.bigObs('z', k, n)
+	})
+	seg('z', func() {
+		d.bigOp('z', k, "zremrank", []int{n - 5000, -1}, b("zremrangebyrank"), k, it(n-5000), it(-1))
+		d.bigObs('z', k, n)
+		d.bigOp('z', k, "zremrank", []int{0, -1}, b("zremrangebyrank"), k, it(0), it(-1))
+		d.bigObs('z', k, n)
+	})
+	seg('z', func() {
+		d.bigOp('z', k, "zremscore", []int{100, n + 10}, b("zremrangebyscore"), k, it(100), it(n+10))
+		d.bigObs('z', k, n)
+		d.bigOp('z', k, "zremscore", []int{-5, 49}, b("zremrangebyscore"), k, it(-5), it(49))
+		d.bigObs('z', k, n)
+	})
+	seg('z', func() {
+		d.bigOp('z', k, "zremlex", []int{0, n - 101}, b("zremrangebylex"), k, append(b("["), bigMember(0)...), append(b("["), bigMember(n-101)...))
+		d.bigObs('z', k, n)
+		d.bigOp('z', k, "zremscore", []int{0, n}, b("zremrangebyscore"), k, b("-inf"), b("+inf"))
+		d.bigObs('z', k, n)
+	})
+}
+
 // ---------------------------------------------------------------- generators
 
 type smGen struct {
+	only   []string // if set: choose uniformly among these command names
+	overlong bool   // now and then name an over-long field/member
 	rng    *rand.Rand
 	nk, ns int
 	types  string
@@ -1314,6 +1634,9 @@ func (g *smGen) next() *smCmd {
 		list = smGenExpCmds[ty]
 	}
 	name := list[r.Intn(len(list))]
+	if len(g.only) > 0 {
+		name = g.only[r.Intn(len(g.only))]
+	}
 	c := &smCmd{Ev: "cmd", C: name, K: 1 + r.Intn(g.nk), P: r.Intn(4)}
 	if r.Intn(4) == 0 {
 		c.P = 4 + r.Intn(1000)
@@ -1342,6 +1665,9 @@ func (g *smGen) next() *smCmd {
 		c.A = []int{vid(), d, r.Intn(3)}
 	case "setex":
 		c.A = []int{dur(), vid()}
+		if r.Intn(15) == 0 {
+			c.A[0] = 0 // invalid duration: an error that changes nothing
+		}
 	case "mset":
 		a, b := g.two(g.nk)
 		c.K = a
@@ -1353,11 +1679,14 @@ func (g *smGen) next() *smCmd {
 		c.K = a
 		c.A = []int{b}
 	case "incrby":
-		c.A = []int{[]int{1, -1, 5, -7, 40}[r.Intn(5)]}
+		c.A = []int{[]int{1, -1, 5, -7, 40, 0}[r.Intn(6)]}
 	case "setrange":
 		c.A = []int{r.Intn(4), vid()}
 	case "getrange", "lrange", "ltrim", "zrange", "zrevrange", "zremrangebyrank":
 		c.A = []int{idx(), idx()}
+		if r.Intn(10) == 0 {
+			c.A = [][]int{{0, -1}, {0, 100}, {-100, -1}, {1, 0}, {2, 2}}[r.Intn(5)] // whole range, empty range, one element
+		}
 	case "expire", "hexpire", "lexpire", "sexpire", "zexpire":
 		c.A = []int{dur()}
 	case "hset", "hsetnx":
@@ -1374,7 +1703,7 @@ func (g *smGen) next() *smCmd {
 		}
 		c.A = []int{a, b}
 	case "hincrby":
-		c.A = []int{sub(), []int{1, -1, 5, 40}[r.Intn(4)]}
+		c.A = []int{sub(), []int{1, -1, 5, 40, 0}[r.Intn(5)]}
 	case "lpush2", "rpush2":
 		c.A = []int{vid(), vid()}
 	case "lindex":
@@ -1389,7 +1718,7 @@ func (g *smGen) next() *smCmd {
 		a, b := g.two(g.ns)
 		c.A = []int{scores[r.Intn(len(scores))], a, scores[r.Intn(len(scores))], b}
 	case "zincrby":
-		c.A = []int{[]int{1, 2, -1, 3}[r.Intn(4)], sub()}
+		c.A = []int{[]int{1, 2, -1, 3, 0}[r.Intn(5)], sub()}
 	case "zrangebyscore", "zrevrangebyscore", "zcount", "zremrangebyscore":
 		c.A = g.iv(scores)
 	case "zrangebylex", "zlexcount", "zremrangebylex":
@@ -1398,6 +1727,26 @@ func (g *smGen) next() *smCmd {
 			ids = append(ids, i)
 		}
 		c.A = g.iv(ids)
+	}
+	// a field/member name longer than the store accepts, also AFTER a valid one: the command must
+	// fail as a whole (the valid part may already be staged in the write batch)
+	if g.overlong && r.Intn(100) < 4 {
+		switch name {
+		case "hdel2", "sadd2", "srem2", "zrem2":
+			if r.Intn(4) == 0 {
+				c.A[0] = smOverLong
+			} else {
+				c.A[1] = smOverLong
+			}
+		case "hmset":
+			c.A[2] = smOverLong
+		case "zadd2":
+			c.A[3] = smOverLong
+		case "hset", "hsetnx", "hdel", "hincrby", "sadd", "srem", "zrem":
+			c.A[0] = smOverLong
+		case "zadd", "zincrby":
+			c.A[1] = smOverLong
+		}
 	}
 	return c
 }
@@ -1549,6 +1898,7 @@ func smsim(args []string) error {
 	wlen := fs.Int("len", 300, "length of a random walk")
 	types := fs.String("types", "khlsz", "random mode: type letters")
 	expiry := fs.Bool("expiry", true, "random mode: include expiry commands")
+	only := fs.String("cmds", "", "random mode: comma separated command names to choose from (default: all of -types)")
 	dup := fs.Bool("dup", false, "random mode: allow a command to repeat a field/member/key")
 	window := fs.Int("window", 0, "random mode: > 0 = log ticks uniform in 0..window-1, 0 = advancing clock")
 	script := fs.String("script", "", "explicit command list (ndjson of smCmd)")
@@ -1560,11 +1910,13 @@ func smsim(args []string) error {
 	scanP := fs.Int("scan", 0, "percent of steps followed by a local-deletion scan (ld)")
 	obsAll := fs.Int("obsall", 10, "observe all keys of all types every this many writes (0 = never)")
 	group := fs.Int("group", 1, "random mode: apply up to this many commands on distinct keys as one raft entry batch")
+	overlong := fs.Bool("overlong", true, "random mode: now and then a write names an over-long (> 10240 bytes) field/member")
 	equalNs := fs.Bool("equalns", false, "all commands of a tick carry the same nanosecond timestamp (isolate stage)")
 	avoid := fs.String("avoid", "", "avoid constraints: kind:cmd,cmd;kind:cmd  (kinds: dead clock always emptyval)")
 	nk := fs.Int("nk", 2, "keys used (<= 4)")
 	ns := fs.Int("ns", 2, "fields/members used (<= 4)")
 	maxRun := fs.Int("maxrun", 40, "graph mode: reset after this many steps")
+	bigN := fs.Int("big", 0, "big-collection scenarios with this many elements (spec/ZBigTrace.tla); no other mode")
 	fs.Parse(args)
 
 	scratch := os.Getenv("ZR_SCRATCH")
@@ -1590,6 +1942,7 @@ func smsim(args []string) error {
 		opts.DataVersion = common.DefaultDataVer
 	}
 	opts.RockOpts.EngineType = *eng
+	opts.RockOpts.DisableWAL = true // no fsync per write; durability is not what this driver looks at
 	w := wait.New()
 	sm, err := node.NewStateMachine(opts, node.MachineConfig{}, 1, "default-0", nil, w, node.NewSlowLimiter("default-0"))
 	if err != nil {
@@ -1619,6 +1972,12 @@ func smsim(args []string) error {
 	}
 	d.tw = d.tws[0]
 
+	if *bigN > 0 {
+		d.bigRun(*bigN)
+		summary(map[string]interface{}{"driver": "smsim", "mode": "big", "engine": *eng, "policy": *policy, "seed": *seed, "pool": *poolN,
+			"edges": 0, "edges_covered": 0, "graph_nodes": 0, "stats": d.st8, "big": *bigN, "parts": *parts})
+		return nil
+	}
 	// ---- build the script: a list of segments
 	var segs [][]*smCmd
 	mode := ""
@@ -1700,7 +2059,10 @@ func smsim(args []string) error {
 	case *nrand > 0:
 		mode = "random"
 		for i := 0; i < *nrand; i++ {
-			g := &smGen{rng: d.rng, nk: *nk, ns: *ns, types: *types, dup: *dup, expiry: *expiry, window: *window, maxT: *maxT}
+			g := &smGen{rng: d.rng, nk: *nk, ns: *ns, types: *types, dup: *dup, expiry: *expiry, window: *window, maxT: *maxT, overlong: *overlong}
+			if *only != "" {
+				g.only = strings.Split(*only, ",")
+			}
 			var cur []*smCmd
 			for j := 0; j < *wlen; j++ {
 				cur = append(cur, g.next())
@@ -1709,6 +2071,33 @@ func smsim(args []string) error {
 				}
 				if *scanP > 0 && d.rng.Intn(100) < *scanP {
 					cur = append(cur, &smCmd{Ev: "scan"})
+				}
+			}
+			// several consecutive writes (also on the SAME key: the apply loop must cut its write
+			// batch before a key is touched twice) form one raft entry batch
+			if *group > 1 {
+				gid := 0
+				for j := 0; j < len(cur); {
+					c := cur[j]
+					if c.Ev != "cmd" || smReadCmds[c.C] {
+						j++
+						continue
+					}
+					want := 1 + d.rng.Intn(*group)
+					gid++
+					n := 0
+					// a batchable write that fails in its handler aborts the whole pending batch, also the
+					// earlier commands in it (recorded finding C07-batch-abort-on-apply-error): such a
+					// command is applied as an entry of its own
+					if smFailingBatchable(c) {
+						j++
+						continue
+					}
+					for j < len(cur) && n < want && cur[j].Ev == "cmd" && !smReadCmds[cur[j].C] && !smFailingBatchable(cur[j]) {
+						cur[j].G = gid
+						j++
+						n++
+					}
 				}
 			}
 			segs = append(segs, cur)
@@ -1758,17 +2147,9 @@ func smsim(args []string) error {
 		for i := 0; i < len(seg); {
 			c := seg[i]
 			grp := []*smCmd{c}
-			if *group > 1 && c.Ev == "cmd" && !smReadCmds[c.C] && c.C != "del2" && c.C != "mset" {
-				want := 1 + d.rng.Intn(*group)
-				used := map[string]bool{string([]byte{smTypeOf(c.C)}) + strconv.Itoa(c.K): true}
-				for j := i + 1; j < len(seg) && len(grp) < want; j++ {
-					n := seg[j]
-					key := string([]byte{smTypeOf(n.C)}) + strconv.Itoa(n.K)
-					if n.Ev != "cmd" || smReadCmds[n.C] || n.C == "del2" || n.C == "mset" || used[key] {
-						break
-					}
-					used[key] = true
-					grp = append(grp, n)
+			if c.G != 0 && c.Ev == "cmd" && !smReadCmds[c.C] {
+				for j := i + 1; j < len(seg) && seg[j].G == c.G && seg[j].Ev == "cmd" && !smReadCmds[seg[j].C]; j++ {
+					grp = append(grp, seg[j])
 				}
 			}
 			d.run(grp, seg[i+len(grp):])
